@@ -109,40 +109,45 @@ def _build_options(b, opts):
 
 
 def build(spec):
+    """spec = main subgraph; spec.get("subgraphs") = further subgraph specs (same layout, plus "subgraph_name") referenced by WHILE / IF / CALL_ONCE options"""
     b = flatbuffers.Builder(4096)
-    tensors, ops = spec["tensors"], spec["ops"]
-    # buffers: 0 is the empty sentinel; constants get their own buffer (shared when "buffer_of" names another tensor)
+    sgs = [spec] + list(spec.get("subgraphs") or [])
+    # buffers: 0 is the empty sentinel; constants get their own buffer (shared when "buffer_of" names another tensor of the same subgraph)
     buf_offs = []
     Buffer.BufferStart(b)
     buf_offs.append(Buffer.BufferEnd(b))
-    tbuf = {}
-    for i, t in enumerate(tensors):
-        if t.get("buffer_of") is not None:
-            continue
-        data = tensor_data(t)
-        if data is not None:
-            raw = np.ascontiguousarray(data).tobytes()
-            b.StartVector(1, len(raw), 16)
-            b.head = b.head - len(raw)
-            b.Bytes[b.head:b.head + len(raw)] = raw
-            dv = b.EndVector()
-            Buffer.BufferStart(b)
-            Buffer.BufferAddData(b, dv)
-            buf_offs.append(Buffer.BufferEnd(b))
-            tbuf[i] = len(buf_offs) - 1
-        elif t.get("own_empty_buffer"):
-            Buffer.BufferStart(b)
-            buf_offs.append(Buffer.BufferEnd(b))
-            tbuf[i] = len(buf_offs) - 1
-    for i, t in enumerate(tensors):
-        if t.get("buffer_of") is not None:
-            tbuf[i] = tbuf.get(t["buffer_of"], 0)
-    # operator codes
+    tbufs = []
+    for sp in sgs:
+        tbuf = {}
+        for i, t in enumerate(sp["tensors"]):
+            if t.get("buffer_of") is not None:
+                continue
+            data = tensor_data(t)
+            if data is not None:
+                raw = np.ascontiguousarray(data).tobytes()
+                b.StartVector(1, len(raw), 16)
+                b.head = b.head - len(raw)
+                b.Bytes[b.head:b.head + len(raw)] = raw
+                dv = b.EndVector()
+                Buffer.BufferStart(b)
+                Buffer.BufferAddData(b, dv)
+                buf_offs.append(Buffer.BufferEnd(b))
+                tbuf[i] = len(buf_offs) - 1
+            elif t.get("own_empty_buffer"):
+                Buffer.BufferStart(b)
+                buf_offs.append(Buffer.BufferEnd(b))
+                tbuf[i] = len(buf_offs) - 1
+        for i, t in enumerate(sp["tensors"]):
+            if t.get("buffer_of") is not None:
+                tbuf[i] = tbuf.get(t["buffer_of"], 0)
+        tbufs.append(tbuf)
+    # operator codes (shared by all subgraphs)
     codes = []
-    for o in ops:
-        k = (o["code"], o.get("version", 1), o.get("custom_code"))
-        if k not in codes:
-            codes.append(k)
+    for sp in sgs:
+        for o in sp["ops"]:
+            k = (o["code"], o.get("version", 1), o.get("custom_code"))
+            if k not in codes:
+                codes.append(k)
     code_offs = []
     for (c, v, cust) in codes:
         cs = b.CreateString(cust) if cust else None
@@ -154,61 +159,6 @@ def build(spec):
         if cs:
             OperatorCode.OperatorCodeAddCustomCode(b, cs)
         code_offs.append(OperatorCode.OperatorCodeEnd(b))
-    # tensors
-    t_offs = []
-    for i, t in enumerate(tensors):
-        name = b.CreateString(t["name"])
-        shp = _vec(b, 4, 4, [int(v) for v in t["shape"]], b.PrependInt32) if t.get("shape") is not None else None
-        sig = _vec(b, 4, 4, [int(v) for v in t["shape_signature"]], b.PrependInt32) if t.get("shape_signature") is not None else None
-        q = None
-        if t.get("scale") is not None or t.get("zp") is not None:
-            sc = np.atleast_1d(np.asarray(t["scale"] if t.get("scale") is not None else [], dtype=np.float32))
-            zp = np.atleast_1d(np.asarray(t["zp"] if t.get("zp") is not None else [], dtype=np.int64))
-            scv = _vec(b, 4, 4, [float(v) for v in sc], b.PrependFloat32) if len(sc) else None
-            zpv = _vec(b, 8, 8, [int(v) for v in zp], b.PrependInt64) if len(zp) else None
-            QuantizationParameters.QuantizationParametersStart(b)
-            if scv is not None:
-                QuantizationParameters.QuantizationParametersAddScale(b, scv)
-            if zpv is not None:
-                QuantizationParameters.QuantizationParametersAddZeroPoint(b, zpv)
-            QuantizationParameters.QuantizationParametersAddQuantizedDimension(b, int(t.get("qdim", 0)))
-            q = QuantizationParameters.QuantizationParametersEnd(b)
-        Tensor.TensorStart(b)
-        if shp is not None:
-            Tensor.TensorAddShape(b, shp)
-        Tensor.TensorAddType(b, DTYPES[t["dtype"]][1])
-        Tensor.TensorAddBuffer(b, tbuf.get(i, 0))
-        Tensor.TensorAddName(b, name)
-        if q is not None:
-            Tensor.TensorAddQuantization(b, q)
-        if t.get("is_variable"):
-            Tensor.TensorAddIsVariable(b, True)
-        if sig is not None:
-            Tensor.TensorAddShapeSignature(b, sig)
-        t_offs.append(Tensor.TensorEnd(b))
-    # operators
-    o_offs = []
-    for o in ops:
-        opt = _build_options(b, o["opts"]) if o.get("opts") else None
-        cust = None
-        if o.get("custom_options") is not None:
-            raw = bytes.fromhex(o["custom_options"])
-            cust = _vec(b, 1, 1, list(raw), b.PrependUint8)
-        iv = _vec(b, 4, 4, [int(v) for v in o["inputs"]], b.PrependInt32)
-        ov = _vec(b, 4, 4, [int(v) for v in o["outputs"]], b.PrependInt32)
-        inter = _vec(b, 4, 4, [int(v) for v in o["intermediates"]], b.PrependInt32) if o.get("intermediates") else None
-        Operator.OperatorStart(b)
-        Operator.OperatorAddOpcodeIndex(b, codes.index((o["code"], o.get("version", 1), o.get("custom_code"))))
-        Operator.OperatorAddInputs(b, iv)
-        Operator.OperatorAddOutputs(b, ov)
-        if opt is not None:
-            Operator.OperatorAddBuiltinOptionsType(b, getattr(BOpt, o["opts"]["table"]))
-            Operator.OperatorAddBuiltinOptions(b, opt)
-        if cust is not None:
-            Operator.OperatorAddCustomOptions(b, cust)
-        if inter is not None:
-            Operator.OperatorAddIntermediates(b, inter)
-        o_offs.append(Operator.OperatorEnd(b))
 
     def vec_off(offs):
         b.StartVector(4, len(offs), 4)
@@ -216,19 +166,75 @@ def build(spec):
             b.PrependUOffsetTRelative(x)
         return b.EndVector()
 
-    tv = vec_off(t_offs)
-    opv = vec_off(o_offs)
-    inv = _vec(b, 4, 4, [int(v) for v in spec["inputs"]], b.PrependInt32)
-    outv = _vec(b, 4, 4, [int(v) for v in spec["outputs"]], b.PrependInt32)
-    sgname = b.CreateString(spec.get("subgraph_name", "main"))
-    SubGraph.SubGraphStart(b)
-    SubGraph.SubGraphAddTensors(b, tv)
-    SubGraph.SubGraphAddInputs(b, inv)
-    SubGraph.SubGraphAddOutputs(b, outv)
-    SubGraph.SubGraphAddOperators(b, opv)
-    SubGraph.SubGraphAddName(b, sgname)
-    sg = SubGraph.SubGraphEnd(b)
-    sgv = vec_off([sg])
+    sg_offs = []
+    for si, sp in enumerate(sgs):
+        tensors, ops, tbuf = sp["tensors"], sp["ops"], tbufs[si]
+        t_offs = []
+        for i, t in enumerate(tensors):
+            name = b.CreateString(t["name"])
+            shp = _vec(b, 4, 4, [int(v) for v in t["shape"]], b.PrependInt32) if t.get("shape") is not None else None
+            sig = _vec(b, 4, 4, [int(v) for v in t["shape_signature"]], b.PrependInt32) if t.get("shape_signature") is not None else None
+            q = None
+            if t.get("scale") is not None or t.get("zp") is not None:
+                sc = np.atleast_1d(np.asarray(t["scale"] if t.get("scale") is not None else [], dtype=np.float32))
+                zp = np.atleast_1d(np.asarray(t["zp"] if t.get("zp") is not None else [], dtype=np.int64))
+                scv = _vec(b, 4, 4, [float(v) for v in sc], b.PrependFloat32) if len(sc) else None
+                zpv = _vec(b, 8, 8, [int(v) for v in zp], b.PrependInt64) if len(zp) else None
+                QuantizationParameters.QuantizationParametersStart(b)
+                if scv is not None:
+                    QuantizationParameters.QuantizationParametersAddScale(b, scv)
+                if zpv is not None:
+                    QuantizationParameters.QuantizationParametersAddZeroPoint(b, zpv)
+                QuantizationParameters.QuantizationParametersAddQuantizedDimension(b, int(t.get("qdim", 0)))
+                q = QuantizationParameters.QuantizationParametersEnd(b)
+            Tensor.TensorStart(b)
+            if shp is not None:
+                Tensor.TensorAddShape(b, shp)
+            Tensor.TensorAddType(b, DTYPES[t["dtype"]][1])
+            Tensor.TensorAddBuffer(b, tbuf.get(i, 0))
+            Tensor.TensorAddName(b, name)
+            if q is not None:
+                Tensor.TensorAddQuantization(b, q)
+            if t.get("is_variable"):
+                Tensor.TensorAddIsVariable(b, True)
+            if sig is not None:
+                Tensor.TensorAddShapeSignature(b, sig)
+            t_offs.append(Tensor.TensorEnd(b))
+        o_offs = []
+        for o in ops:
+            opt = _build_options(b, o["opts"]) if o.get("opts") else None
+            cust = None
+            if o.get("custom_options") is not None:
+                raw = bytes.fromhex(o["custom_options"])
+                cust = _vec(b, 1, 1, list(raw), b.PrependUint8)
+            iv = _vec(b, 4, 4, [int(v) for v in o["inputs"]], b.PrependInt32)
+            ov = _vec(b, 4, 4, [int(v) for v in o["outputs"]], b.PrependInt32)
+            inter = _vec(b, 4, 4, [int(v) for v in o["intermediates"]], b.PrependInt32) if o.get("intermediates") else None
+            Operator.OperatorStart(b)
+            Operator.OperatorAddOpcodeIndex(b, codes.index((o["code"], o.get("version", 1), o.get("custom_code"))))
+            Operator.OperatorAddInputs(b, iv)
+            Operator.OperatorAddOutputs(b, ov)
+            if opt is not None:
+                Operator.OperatorAddBuiltinOptionsType(b, getattr(BOpt, o["opts"]["table"]))
+                Operator.OperatorAddBuiltinOptions(b, opt)
+            if cust is not None:
+                Operator.OperatorAddCustomOptions(b, cust)
+            if inter is not None:
+                Operator.OperatorAddIntermediates(b, inter)
+            o_offs.append(Operator.OperatorEnd(b))
+        tv = vec_off(t_offs)
+        opv = vec_off(o_offs)
+        inv = _vec(b, 4, 4, [int(v) for v in sp["inputs"]], b.PrependInt32)
+        outv = _vec(b, 4, 4, [int(v) for v in sp["outputs"]], b.PrependInt32)
+        sgname = b.CreateString(sp.get("subgraph_name", "main" if si == 0 else "subgraph_%d" % si))
+        SubGraph.SubGraphStart(b)
+        SubGraph.SubGraphAddTensors(b, tv)
+        SubGraph.SubGraphAddInputs(b, inv)
+        SubGraph.SubGraphAddOutputs(b, outv)
+        SubGraph.SubGraphAddOperators(b, opv)
+        SubGraph.SubGraphAddName(b, sgname)
+        sg_offs.append(SubGraph.SubGraphEnd(b))
+    sgv = vec_off(sg_offs)
     cv = vec_off(code_offs)
     bv = vec_off(buf_offs)
     desc = b.CreateString(spec.get("description", "verif generated"))
